@@ -259,6 +259,14 @@ func genC18(r *Rng, e *Emitter, n int) {
 		}
 		e.tally("format=geojson")
 		e.emit("C18.geojson", fmt.Sprintf("(%d %s %d %s)", d, bb, order, t.sx()), guard(func() string {
+			if len(opts)%2 == 1 {
+				// an option list with an unset placeholder in it, used for two calls in a row: the second
+				// call is given what the first was given
+				opts = append([]geojson.EncodeGeometryOption{{}}, opts...)
+				if _, err := geojson.Marshal(g, opts...); err != nil {
+					return "(err other)"
+				}
+			}
 			b, err := geojson.Marshal(g, opts...)
 			if err != nil {
 				return "(err other)"
